@@ -139,3 +139,14 @@ pub(crate) fn apply_witness_edits<F: Field>(w: &mut MatrixWitness<F>) {
         }
     });
 }
+
+/// See `gates::coset_interpolation::CosetInterpolationGate::with_max_degree` (crate-private).
+pub fn coset_interpolation_gate_with_max_degree<F: RichField + Extendable<D>, const D: usize>(
+    subgroup_bits: usize,
+    max_degree: usize,
+) -> crate::gates::coset_interpolation::CosetInterpolationGate<F, D> {
+    crate::gates::coset_interpolation::CosetInterpolationGate::with_max_degree(
+        subgroup_bits,
+        max_degree,
+    )
+}
